@@ -52,6 +52,13 @@ def norm_line(line):
 
 
 def same_line(a, b, tol=0.0051, strict_kinds=True):
+    if a.startswith("D:") and b.startswith("D:"):
+        # delays: the device sleeps whole milliseconds, the host the exact value - "the same delays up to the device's whole-millisecond
+        # rounding (under 1 ms per delay)"
+        try:
+            return abs(float(a[2:]) - float(b[2:])) < 1.0
+        except ValueError:
+            return a == b
     pa, pb = norm_line(a), norm_line(b)
     if len(pa) != len(pb):
         return False
@@ -73,11 +80,27 @@ def observable(events, kinds=("S", "D")):
 
 
 def compare(host, fw, strict_kinds=True):
-    """first difference between two event lists, or None"""
-    for i in range(max(len(host), len(fw))):
+    """first difference between two event lists, or None.  Delays are compared up to the device's whole-millisecond rounding (< 1 ms per
+    delay): a delay under one millisecond on one side may have no counterpart on the other (it rounded to nothing there)"""
+    def small_delay(e):
+        if e.startswith("D:"):
+            try:
+                return float(e[2:]) < 1.0
+            except ValueError:
+                return False
+        return False
+    i = j = 0
+    while i < len(host) or j < len(fw):
         h = host[i] if i < len(host) else "<end>"
-        f = fw[i] if i < len(fw) else "<end>"
-        if not same_line(h, f, strict_kinds=strict_kinds):
+        f = fw[j] if j < len(fw) else "<end>"
+        if same_line(h, f, strict_kinds=strict_kinds):
+            i += 1
+            j += 1
+        elif small_delay(h) and not (f.startswith("D:") and same_line(h, f)):
+            i += 1
+        elif small_delay(f):
+            j += 1
+        else:
             return {"index": i, "cpython": h, "firmware": f}
     return None
 
